@@ -232,7 +232,10 @@ func typeName(t *parser.Type) string {
 	if t.Annotations != nil {
 		var sb stringBuilder
 		printAnnotation(&sb, t.Annotations)
-		name = name + sb.String()
+		// the type name is written out through writeString, which escapes '&'
+		// itself; undo the escaping done by the local builder so that it is
+		// applied exactly once
+		name = name + strings.ReplaceAll(sb.String(), "&amp;", "&")
 	}
 	return name
 }
